@@ -19,12 +19,15 @@
    (Split, exactly three parts: refuted); [seeded12] / [seeded12u] = seeded
    change C02-12 (refuted).
 
-   No suite evaluates [parse] / [gc_item] on strings (the instance id is not
-   part of a Coq case); the formal tie to the frame the suites do evaluate is
-   C02_gc_item_is_GItem below: [Model.exec]'s frame [GItem q e r] does exactly
-   what [gc_item] says about the string the code wrote for (e, r). *)
+   Suites [res] / [eng] do not evaluate [parse] / [gc_item] on strings (the
+   instance id is not part of their cases); the formal tie to the frame they do
+   evaluate is C02_gc_item_is_GItem below: [Model.exec]'s frame [GItem q e r]
+   does exactly what [gc_item] says about the string the code wrote for (e, r).
+   Suite [member] (section L, extension 4) evaluates [render] / [parse] /
+   [gc_item] themselves on whole member strings against the real
+   generateMember / extractMemberFromItem / validateMemberIntegrity. *)
 From Coq Require Import List ZArith Bool Lia.
-From Verif Require Import C02.Model C02.Model4 C02.Proofs8 C02.Proofs10.
+From Verif Require Import C02.Model C02.Model4 C02.Proofs8 C02.Proofs10 C02.Proofs11.
 Import ListNotations.
 Open Scope Z_scope.
 
@@ -331,3 +334,66 @@ Example C02_ex_dec10 :
     = [POk 5; POk 0; POk 7] /\
   undecZ (dec10 18446744073709551616) = Some 18446744073709551616.
 Proof. vm_compute. repeat split; reflexivity. Qed.
+
+(* ------------------------------------------------------------------ L
+   Suite [member] (extension 4): Model4.run_member evaluates [render dec10],
+   [parse undec10 head4] and [gc_item undec10 head4] on whole member strings —
+   the ones the real generateMember wrote (clock g, request expiry ttl, request
+   id, instance id) and made-up ones — against what the real
+   extractMemberFromItem / validateMemberIntegrity did with them at clock
+   cm_now.  An ACCEPTED case (run_member k = None) whose member was generated
+   with an int64 expiry and a ':'-free request id is an instance of
+   C02_expiry_collection_real_decimal: the string the code wrote is the
+   model's rendering, the code collected it iff its expiry had passed, and read
+   back the request id, the instance id and the (saturated, clamped) time left. *)
+
+Theorem C02_slack_is_delta : slack = Model.delta.
+Proof. reflexivity. Qed.
+Print Assumptions C02_slack_is_delta.
+
+Theorem C02_accepted_member_case :
+  forall k g ttl, run_member k = None -> cm_gen k = Some (g, ttl) ->
+    int64 (member_expiry g ttl) -> cfree (cm_rid k) ->
+    cm_item k = render dec10 (member_expiry g ttl) (cm_rid k) (cm_inst k) /\
+    cm_coll k = (member_expiry g ttl <=? cm_now k) /\
+    cm_coll k = gc_item undec10 head4 (cm_now k) (render dec10 (member_expiry g ttl) (cm_rid k) (cm_inst k)) /\
+    cm_parsed k = Some (remaining (cm_now k) (member_expiry g ttl), cm_rid k, cm_inst k).
+Proof.
+  intros k g ttl Hk Hg He Hr.
+  destruct (run_member_accepted k Hk) as [Hw [Hp Hc]].
+  specialize (Hw g ttl Hg).
+  rewrite Hp, Hc, Hw. unfold parsed_obs.
+  rewrite (C02_member_read_back_real_decimal _ _ (cm_inst k) He Hr).
+  rewrite (C02_expiry_collection_real_decimal (cm_now k) _ _ (cm_inst k) He Hr).
+  repeat split; reflexivity.
+Qed.
+Print Assumptions C02_accepted_member_case.
+
+(* made-up strings too: whatever item an accepted case carries, the code
+   collected it exactly when the model's GC item does, and read what the
+   model's parser reads *)
+Theorem C02_accepted_member_case_any_item :
+  forall k, run_member k = None ->
+    cm_coll k = gc_item undec10 head4 (cm_now k) (cm_item k) /\
+    cm_parsed k = parsed_obs (cm_now k) (cm_item k).
+Proof.
+  intros k Hk. destruct (run_member_accepted k Hk) as [_ [Hp Hc]]. split; assumption.
+Qed.
+Print Assumptions C02_accepted_member_case_any_item.
+
+(* the hypotheses are satisfiable on the shapes the suite generates: expiry at
+   the top of int64 under an instance id with "::" inside, read 1 ns before and
+   at the expiry; and run_member refuses a wrong collection verdict *)
+Example C02_ex_member_case :
+  let g := 9223372036854775807 - 1000000000 - slack in
+  let rid := [116; 48] in let inst := [100; 99; 49; 58; 58; 103; 119] in
+  let item := render dec10 9223372036854775807 rid inst in
+  member_expiry g 1000000000 = 9223372036854775807 /\
+  int64b (member_expiry g 1000000000) = true /\ cfreeb rid = true /\
+  run_member (mkCM (Some (g, 1000000000)) rid inst item 9223372036854775806 (Some (1, rid, inst)) false) = None /\
+  run_member (mkCM (Some (g, 1000000000)) rid inst item 9223372036854775807 (Some (0, rid, inst)) true) = None /\
+  run_member (mkCM (Some (g, 1000000000)) rid inst item 9223372036854775807 (Some (0, rid, inst)) false) <> None /\
+  run_member (mkCM (Some (g, 1000000000)) rid inst item (-9223372036854775808) (Some (9223372036854775807, rid, inst)) false) = None /\
+  run_member (mkCM None [] [] [49; 58; 58; 58; 58; 58] 5 (Some (0, [], [58])) true) = None /\
+  run_member (mkCM None [] [] [49; 58; 58; 116] 5 None false) = None.
+Proof. vm_compute. repeat split; try reflexivity. discriminate. Qed.
